@@ -41,13 +41,13 @@ omit [Good c] in
 /-- `Key.verify` looks at the public pair only -/
 theorem keyVerify_pub (bf : Int) (k k' : Key) (h : k.pub = k'.pub) (hh sig : Bytes) :
     keyVerify c bf k hh sig = keyVerify c bf k' hh sig := by
-  unfold keyVerify; rw [h]
+  unfold keyVerify keyVerifyWith; rw [h]
 
 omit [Good c] in
 /-- a signature blob that is not strict DER is answered `False` (the exception is swallowed) -/
 theorem keyVerify_bad_der (bf : Int) (k : Key) (hh sig : Bytes) (e : Der.Err) (h : Der.sigdecodeDer sig false = .error e) :
     keyVerify c bf k hh sig = .ok false := by
-  unfold keyVerify
+  unfold keyVerify keyVerifyWith
   rw [h]
   rcases Der.sigdecodeDer_err sig false e h with rfl | rfl <;> rfl
 
@@ -58,7 +58,7 @@ theorem keyVerify_decoded (bf : Int) (k : Key) (hk : containsXY c k.pub.1 k.pub.
     ∃ b, verify c bf (some k.pub) (fromBytes32 hh) r s = .ok b ∧ keyVerify c bf k hh sig = .ok b := by
   obtain ⟨b, hb⟩ := verify_total ok bf (some k.pub) hk (fromBytes32 hh) r s
   refine ⟨b, hb, ?_⟩
-  unfold keyVerify
+  unfold keyVerify keyVerifyWith
   rw [h]; simp only [hb]
 
 include ok in
@@ -75,7 +75,7 @@ theorem keyVerify_total (bf : Int) (k : Key) (hk : containsXY c k.pub.1 k.pub.2 
 
 omit [Good c] in
 theorem keySign_public (bf : Int) (k : Key) (hse : k.se = none) (hh : Bytes) : keySign c bf k hh = .error .runtime := by
-  unfold keySign; rw [hse]
+  unfold keySign keySignWith; rw [hse]
 
 omit [Good c] in
 theorem publicCopy_pub (k : Key) : (publicCopy k).pub = k.pub ∧ (publicCopy k).se = none ∧
@@ -117,7 +117,7 @@ theorem keySign_verifies (bf0 bf bf' d : Int) (comp : Bool) (k : Key) (hk : keyF
       · injection hk with hk
         subst hk
         -- the signature
-        unfold keySign at hs
+        unfold keySign keySignWith at hs
         simp only at hs
         cases hsg : Pycoin.RFC6979.sign c bf d (fromBytes32 hh) with
         | error e => rw [hsg] at hs; cases hs
@@ -153,7 +153,7 @@ theorem keySign_verifies (bf0 bf bf' d : Int) (comp : Bool) (k : Key) (hk : keyF
               subst hb1
               have hv : ∀ k' : Key, k'.pub = (x, y) → keyVerify c bf' k' hh blob = .ok true := by
                 intro k' hp
-                unfold keyVerify
+                unfold keyVerify keyVerifyWith
                 rw [hb2, hp]
                 simp only [q2]
               exact ⟨hz, ⟨r', s', r1, r2, s1, s2, henc, hb2⟩, hv _ rfl, hv _ (publicCopy_pub _).1, hv⟩
@@ -192,7 +192,7 @@ theorem step_pub (hc : Sec.Field32 c) (h4 : c.p % 4 = 3) (bf : Int) (st : HState
     (step c bf st s).1.key.pub = st.key.pub ∧ KInv c (step c bf st s).1.key := by
   cases s with
   | sign h =>
-    simp only [step]
+    simp only [step, stepWith]
     split <;> exact ⟨rfl, hk⟩
   | verify h sig => exact ⟨rfl, hk⟩
   | verifyLast h => exact ⟨rfl, hk⟩
@@ -205,7 +205,7 @@ theorem step_pub (hc : Sec.Field32 c) (h4 : c.p % 4 = 3) (bf : Int) (st : HState
     rw [this.1]; exact hk
   | viaSec =>
     obtain ⟨sec, k', h1, h2, h3, -, -⟩ := viaSec_ok hc h4 st.key hk
-    unfold step
+    unfold step stepWith
     simp only [h1, h2]
     refine ⟨h3, ?_⟩
     unfold KInv
@@ -237,15 +237,15 @@ theorem history_fresh (hc : Sec.Field32 c) (h4 : c.p % 4 = 3) (bf : Int) (pub : 
     cases s with
     | verify h sig =>
       show (step c bf st (.verify h sig)).2 = _
-      unfold step
+      unfold step stepWith
       simp only
-      rw [keyVerify_pub bf st.key ⟨none, pub, true⟩ hp]
+      rw [show keyVerifyWith (verify c bf) = keyVerify c bf from rfl, keyVerify_pub bf st.key ⟨none, pub, true⟩ hp]
       rfl
     | verifyLast h =>
       show (step c bf st (.verifyLast h)).2 = _
-      unfold step
+      unfold step stepWith
       simp only
-      rw [keyVerify_pub bf st.key ⟨none, pub, true⟩ hp]
+      rw [show keyVerifyWith (verify c bf) = keyVerify c bf from rfl, keyVerify_pub bf st.key ⟨none, pub, true⟩ hp]
       rfl
     | sign h => trivial
     | pubCopy => trivial
